@@ -139,7 +139,8 @@ def run(prop, tier=None, replay=None):
         behs = [json.load(open(replay))["replay"]["beh"]]
     else:
         behs = []
-        for cfg in (("Scopes_quick.cfg" if tier == "quick" else "Scopes_thorough.cfg"), "Scopes_pos.cfg"):
+        # Scopes_f08: names that are intrinsic from Fortran 2008 on (the check parses with std=f2008)
+        for cfg in (("Scopes_quick.cfg" if tier == "quick" else "Scopes_thorough.cfg"), "Scopes_pos.cfg", "Scopes_f08.cfg"):
             r = tlc.run("MCScopes.tla", cfg, timeout=20000)
             if not r.ok():
                 raise MachineryError("TLC failed on %s: %s %s" % (cfg, r.invariant_violated, r.error))
